@@ -233,3 +233,18 @@ Proof.
   - destruct (end_block s) as [[s1 u]|] eqn:Ee; [|discriminate]. injection E as <-. exfalso. apply Hne. eapply gv_end_block; eauto.
   - injection E as <-. exfalso. apply Hne. reflexivity.
 Qed.
+
+(* ---------- an ACL that lists a key more than once: the FIRST entry names the owner (ACL.GetOwner's loop) ---------- *)
+Lemma owner_of_first_entry l1 k a l2 :
+  (forall p, In p l1 -> fst p <> k) -> owner_of (l1 ++ (k, a) :: l2) k = a.
+Proof.
+  intros H. unfold owner_of. induction l1 as [|q r IH]; cbn [app find fst].
+  - replace (beqb k k) with true by (symmetry; apply beqb_eq; reflexivity). reflexivity.
+  - destruct (beqb (fst q) k) eqn:E.
+    + apply beqb_eq in E. exfalso. apply (H q); [left; reflexivity|exact E].
+    + apply IH. intros p Hp. apply H. right. exact Hp.
+Qed.
+(* so entries for the same key further down change nothing, whatever address they carry *)
+Lemma owner_of_ignores_later_entries l1 k a l2 l2' :
+  (forall p, In p l1 -> fst p <> k) -> owner_of (l1 ++ (k, a) :: l2) k = owner_of (l1 ++ (k, a) :: l2') k.
+Proof. intros H. rewrite !owner_of_first_entry by exact H. reflexivity. Qed.
